@@ -78,6 +78,9 @@ pub struct Cfg {
     pub start_soc: Value,
     pub adjustment: f64,
     pub cache: bool,
+    /// number of cache entries (0: 64); sizes 1 and 2 make edge histories evict and re-insert keys
+    #[serde(default)]
+    pub cache_size: usize,
     pub real_model: bool,
 }
 
@@ -95,7 +98,7 @@ struct Built {
 const REAL_DIR: &str = "/repo/rust/routee-compass-powertrain/src/routee/test";
 
 fn record(cfg: &Cfg, which: &str) -> Result<(PredictionModelRecord, Box<dyn Fn(f64, f64) -> f64 + Send + Sync>), String> {
-    let cache = if cfg.cache { Some(FloatCachePolicy::from_config(FloatCachePolicyConfig { cache_size: 64, key_precisions: vec![6, 6] }).map_err(|e| e.to_string())?) } else { None };
+    let cache = if cfg.cache { Some(FloatCachePolicy::from_config(FloatCachePolicyConfig { cache_size: if cfg.cache_size == 0 { 64 } else { cfg.cache_size }, key_precisions: vec![6, 6] }).map_err(|e| e.to_string())?) } else { None };
     if cfg.real_model {
         let (file, eru) = match which {
             "ice" => ("Toyota_Camry.bin", EnergyRateUnit::GallonsGasolinePerMile),
@@ -407,8 +410,9 @@ fn configs(tier: Tier) -> Vec<Cfg> {
                         if vehicle == "ice" && (ci > 0 || soc != json!(50.0)) {
                             continue;
                         }
-                        for cache in [false, true] {
-                            if tier == Tier::Quick && cache && (mi + ti + ci) % 2 != 0 {
+                        for (ki, csize) in [0usize, 64, 1, 2].iter().enumerate() {
+                            let cache = *csize > 0;
+                            if tier == Tier::Quick && cache && (mi + ti + ci + ki) % 3 != 0 {
                                 continue;
                             }
                             out.push(Cfg {
@@ -425,6 +429,7 @@ fn configs(tier: Tier) -> Vec<Cfg> {
                                 start_soc: soc.clone(),
                                 adjustment: if (mi + ti) % 2 == 0 { 1.0 } else { 1.3958 },
                                 cache,
+                                cache_size: *csize,
                                 real_model: false,
                             });
                         }
@@ -452,6 +457,7 @@ fn configs(tier: Tier) -> Vec<Cfg> {
                     start_soc: soc.clone(),
                     adjustment: 1.1,
                     cache: cap > 1.0,
+                    cache_size: if soc == json!(100) { 2 } else { 0 },
                     real_model: true,
                 });
             }
@@ -482,7 +488,7 @@ pub fn run(tier: Tier) -> i32 {
     let info = RunInfo::new("C08", tier);
     let cfgs = configs(tier);
     let n_types = edge_types().len();
-    let hists_full = histories(tier.pick(3, 4), n_types);
+    let hists_full = histories(tier.pick(4, 5), n_types);
     let hists_real = histories(2, n_types);
     let n = cfgs.len() as u64;
     let mut st = par_blocks(n, 1, |lo, hi, st| {
@@ -531,6 +537,7 @@ pub fn run(tier: Tier) -> i32 {
                 start_soc: bad.clone(),
                 adjustment: 1.0,
                 cache: false,
+                cache_size: 0,
                 real_model: false,
             };
             // a missing starting charge is an error for the hybrid only (the BEV defaults to full)
@@ -546,9 +553,9 @@ pub fn run(tier: Tier) -> i32 {
     finish(
         &info,
         st,
-        "state = one powertrain configuration (ICE/BEV/PHEV x prediction-model units x time-model units x output units x battery capacity x starting charge x cache on/off, synthetic smooth models incl. negative rates downhill, and the bundled Camry/Bolt/Volt models behind the interpolated model); transition = one traverse_edge of the real EnergyTraversalModel in an edge history (all sequences up to length 3 (quick) / 4 (thorough) over 12 edge types = 2 lengths x 2 speeds x 3 grades); oracle = reference energy and state-of-charge arithmetic with clamp and PHEV mode switch; non-trivial = every configuration",
+        "state = one powertrain configuration (ICE/BEV/PHEV x prediction-model units x time-model units x output units x battery capacity x starting charge x prediction cache {off, 64, 1, 2 entries}, synthetic smooth models incl. negative rates downhill, and the bundled Camry/Bolt/Volt models behind the interpolated model); transition = one traverse_edge of the real EnergyTraversalModel in an edge history (all sequences up to length 4 (quick) / 5 (thorough) over 12 edge types = 2 lengths x 2 speeds x 3 grades); oracle = reference energy and state-of-charge arithmetic with clamp and PHEV mode switch; non-trivial = every configuration",
         true,
-        json!({"configurations": n, "edge_types": n_types, "max_history_length": tier.pick(3, 4), "histories": hists_full.len()}),
+        json!({"configurations": n, "edge_types": n_types, "max_history_length": tier.pick(4, 5), "histories": hists_full.len()}),
         vec![
             "tolerance 3e-3 for synthetic models (unit tables), 2e-2 for the bundled models (the speed handed to the model is reconstructed from length / time)".into(),
             "the charge carried forward in the reference is the implementation's own value after each checked step, so rounding cannot flip the PHEV mode".into(),
